@@ -37,6 +37,7 @@ type tcase struct {
 	reenc    []byte
 	reOut    vh.Outcome
 	errExp   bool   // the encoding is outside the format (array too long): both sides must reject it
+	skipped  bool   // not run: twelve hangs were already confirmed
 	hung     bool   // the worker did not answer within the deadline and was killed
 	died     bool   // the worker process died
 	phase    string // where it was: build | encode | decode
@@ -100,7 +101,7 @@ func runImpl(c *tcase) {
 // encodings up to this size are also decoded through a connection-backed input (0 = off)
 // deadline of an implementation call made in this process (shrinking, tag table, re-encode stage);
 // a call that exceeds it leaves its goroutine behind and is reported as a hang
-const implDeadline = 10 * time.Second
+const implDeadline = 60 * time.Second
 
 var connLimit = 0
 
@@ -262,6 +263,10 @@ func main() {
 				rep.Sample(map[string]string{"value": vh.Clip(c.line, 300), "bytes": vh.Clip(vh.Hex(c.bytes), 200)})
 			}
 
+			if c.skipped {
+				rep.Count("skipped-after-12-hangs")
+				continue
+			}
 			if c.hung || c.died {
 				// non-termination (or a fatal crash) of the implementation: name the smallest container that does it alone
 				what, verb := "did not finish within its deadline (the worker process was killed)", "hangs"
@@ -269,7 +274,7 @@ func main() {
 					what, verb = "killed its process (unrecoverable runtime fatal)", "crashes"
 				}
 				bad, phase := c.v, c.phase
-				if hangProbes < 4 {
+				if hangProbes < 2 {
 					hangProbes++
 					var cands []*vg.V
 					c.v.Walk(func(n *vg.V) {
@@ -278,11 +283,11 @@ func main() {
 						}
 					})
 					sort.SliceStable(cands, func(i, j int) bool { return cands[i].Nodes() < cands[j].Nodes() })
-					if len(cands) > 60 {
-						cands = cands[:60]
+					if len(cands) > 12 {
+						cands = cands[:12]
 					}
 					for _, n := range cands {
-						if h, ph := hangsAlone(n, c.hseed, 3*time.Second); h {
+						if h, ph := hangsAlone(n, c.hseed, 20*time.Second); h {
 							bad, phase = n, ph
 							break
 						}
@@ -662,6 +667,9 @@ func main() {
 		}
 	}
 
+	if slowCases > 0 {
+		rep.CountN("exceeded-first-deadline-but-completed-alone", slowCases)
+	}
 	g1, g2 := vg.CollidingGroups()
 	rep.Note("colliding string keys: %d groups of >=%d strings with equal hash index modulo 101 and 203; %d strings in bucket 0", g1, g2, vg.ZeroBucketStrings())
 	rep.Note("%s", strings.TrimSpace(fmt.Sprintf("cases=%d driver lines=%d", nDone, totalLines)))
